@@ -94,7 +94,7 @@ def policy_row(res_policy, mdp, view, s_label):
     return {view.aidx[a]: float(p) for a, p in dist.items()}
 
 
-def check_result(ctx, spec, cfg, res, mdp, view, name, refpack=None):
+def check_result(ctx, spec, cfg, res, mdp, view, name, refpack=None, pfx="C01"):
     ref, U, zero, opt, ambiguous = refpack or reference(spec)
     n, m, gamma = ref.n, ref.m, ref.gamma
     undef = _undef(cfg)
@@ -105,18 +105,18 @@ def check_result(ctx, spec, cfg, res, mdp, view, name, refpack=None):
 
     # 4. initial value is the p0-expectation of the reported table
     iv = sum(float(res.state_value[view.S[s]]) * p for s, p in view.p0 if p > 0)
-    ctx.check(close(float(res.initial_value), iv, 1e-12, 1e-12), f"C01.{name}.initial_value_expectation",
+    ctx.check(close(float(res.initial_value), iv, 1e-12, 1e-12), f"{pfx}.{name}.initial_value_expectation",
               lambda: f"initial_value={res.initial_value} but sum p0*state_value={iv}")
 
     # keys / shape
-    ctx.check(set(res.state_value.keys()) == set(mdp.state_list), f"C01.{name}.state_value_keys")
+    ctx.check(set(res.state_value.keys()) == set(mdp.state_list), f"{pfx}.{name}.state_value_keys")
 
     V = {s: float(res.state_value[view.S[s]]) for s in states}
     for s in states:
         if ref.absorbing[s]:
-            ctx.check(V[s] == 0, f"C01.{name}.absorbing_value_zero", lambda: f"state {s}: {V[s]}")
+            ctx.check(V[s] == 0, f"{pfx}.{name}.absorbing_value_zero", lambda: f"state {s}: {V[s]}")
         elif U[s]:
-            ctx.check(V[s] == undef, f"C01.{name}.placeholder_at_U", lambda: f"state {s}: {V[s]} != {undef}")
+            ctx.check(V[s] == undef, f"{pfx}.{name}.placeholder_at_U", lambda: f"state {s}: {V[s]} != {undef}")
 
     # policy well-formedness everywhere (incl. U states): probability vector on available actions
     rows = {}
@@ -126,16 +126,16 @@ def check_result(ctx, spec, cfg, res, mdp, view, name, refpack=None):
         if ref.absorbing[s]:
             continue
         tot = sum(row.values())
-        ctx.check(abs(tot - 1) <= 1e-9, f"C01.{name}.policy_row_sum", lambda: f"state {s}: {row}")
+        ctx.check(abs(tot - 1) <= 1e-9, f"{pfx}.{name}.policy_row_sum", lambda: f"state {s}: {row}")
         bad = [a for a, p in row.items() if p > 0 and not ref.avail[s, a]]
-        ctx.check(not bad, f"C01.{name}.policy_unavailable_action",
+        ctx.check(not bad, f"{pfx}.{name}.policy_unavailable_action",
                   lambda: f"state {s} (U={bool(U[s])}) policy {row} avail {ref.avail[s].tolist()}")
         sup = [p for p in row.values() if p > 0]
-        ctx.check(max(sup) - min(sup) <= 1e-12, f"C01.{name}.policy_uniform_on_support", lambda: f"state {s}: {row}")
+        ctx.check(max(sup) - min(sup) <= 1e-12, f"{pfx}.{name}.policy_uniform_on_support", lambda: f"state {s}: {row}")
         if U[s]:
             want = {a for a in range(m) if ref.avail[s, a]}
             got = {a for a, p in row.items() if p > 0}
-            ctx.check(got == want or bool(bad), f"C01.{name}.policy_at_U_all_available", lambda: f"{s}: {row}")
+            ctx.check(got == want or bool(bad), f"{pfx}.{name}.policy_at_U_all_available", lambda: f"{s}: {row}")
 
     converged = bool(res.converged)
     if cfg["tiny_cap"]:
@@ -145,7 +145,7 @@ def check_result(ctx, spec, cfg, res, mdp, view, name, refpack=None):
         rmax = max(ref.rmax_abs(), 1e-300)
         need = math.ceil(math.log(residual * (1 - gamma) / rmax) / math.log(gamma)) + 2 if rmax > residual else 2
         if need < 1e5 - 2:
-            ctx.check(converged, f"C01.{name}.converged_flag", lambda: f"iterations={res.iterations} need<={need}")
+            ctx.check(converged, f"{pfx}.{name}.converged_flag", lambda: f"iterations={res.iterations} need<={need}")
     if not converged:
         ctx.event("not_converged")
         return
@@ -179,10 +179,10 @@ def check_result(ctx, spec, cfg, res, mdp, view, name, refpack=None):
     nz = [s for s in states if not zero[s]]
     for s in nz:
         if gamma == 1.0:
-            ctx.check(V[s] >= Vstar[s] - TOL * (1 + abs(Vstar[s])), f"C01.{name}.value_below_optimal",
+            ctx.check(V[s] >= Vstar[s] - TOL * (1 + abs(Vstar[s])), f"{pfx}.{name}.value_below_optimal",
                       lambda: f"state {s}: {V[s]} < V*={Vstar[s]}")
         if math.isfinite(bound[s]):
-            ctx.check(abs(V[s] - Vstar[s]) <= bound[s], f"C01.{name}.value_optimal",
+            ctx.check(abs(V[s] - Vstar[s]) <= bound[s], f"{pfx}.{name}.value_optimal",
                       lambda: f"state {s}: reported {V[s]} optimal {Vstar[s]} bound {bound[s]}")
         else:
             ctx.event("infinite_horizon_bound")
@@ -207,13 +207,13 @@ def check_result(ctx, spec, cfg, res, mdp, view, name, refpack=None):
             sup = {a for a, p in row.items() if p > 0}
             for a in acts:
                 if Qstar[s, a] < best - gap:
-                    ctx.check(a not in sup, f"C01.{name}.policy_suboptimal_action",
+                    ctx.check(a not in sup, f"{pfx}.{name}.policy_suboptimal_action",
                               lambda: f"state {s}: action {a} Q*={Qstar[s, a]} best={best} gap={gap} policy={row}")
             sure = 2 * b <= 0.25 * (1e-8 + 1e-5 * abs(best))
             for a in ties:
                 ident = any(a2 != a and a2 in sup and spec_row(spec, s, a) == spec_row(spec, s, a2) for a2 in ties)
                 if sure or ident:
-                    ctx.check(a in sup, f"C01.{name}.policy_misses_tied_action",
+                    ctx.check(a in sup, f"{pfx}.{name}.policy_misses_tied_action",
                               lambda: f"state {s}: tied actions {ties} policy {row}")
                 else:
                     ctx.event("tie_in_numerical_band")
@@ -223,7 +223,7 @@ def check_result(ctx, spec, cfg, res, mdp, view, name, refpack=None):
         jpi = float(np.where(ref.p0 > 0, ref.p0 * np.where(zero, 0.0, ev["V"]), 0.0).sum())
         Hbar = float(np.where(ref.p0 > 0, ref.p0 * np.where(zero, 0.0, H), 0.0).sum())
         ctx.check(jpi <= jstar + TOL * (1 + abs(jstar)) and jpi >= jstar - gap * max(Hbar, 1.0) - TOL,
-                  f"C01.{name}.policy_return_optimal", lambda: f"J_pi={jpi} J*={jstar} gap={gap} H={Hbar}")
+                  f"{pfx}.{name}.policy_return_optimal", lambda: f"J_pi={jpi} J*={jstar} gap={gap} H={Hbar}")
     else:
         ctx.event("policy_check_skipped_infinite_horizon")
 
